@@ -20,7 +20,24 @@ def main():
             continue
         t0 = time.time()
         cmd = c["quick_cmd"] if tier == "quick" else c["thorough_cmd"]
-        p = subprocess.run(cmd, shell=True, cwd=root, capture_output=True, text=True)
+        import signal
+
+        proc = subprocess.Popen(cmd, shell=True, cwd=root, stdout=subprocess.PIPE, stderr=subprocess.PIPE, text=True,
+                                start_new_session=True)
+        try:
+            out, err = proc.communicate(timeout=int(os.environ.get("VF_CHECK_TIMEOUT", "3000")))
+        except subprocess.TimeoutExpired:
+            os.killpg(proc.pid, signal.SIGKILL)
+            out, err = proc.communicate()
+            print(f"{pid} TIMEOUT after {time.time() - t0:.0f}s", flush=True)
+            bad += 1
+            continue
+
+        class P:
+            pass
+
+        p = P()
+        p.returncode, p.stdout, p.stderr = proc.returncode, out, err
         lines = [l for l in p.stdout.splitlines() if l.startswith(("OK", "VIOLATION", "KNOWN", "SPEC-DRIFT"))]
         print(f"{pid} exit={p.returncode} {time.time() - t0:.0f}s {' | '.join(lines)[:300]}", flush=True)
         if p.returncode != 0:
